@@ -256,6 +256,7 @@ fn run_vector(s: &Scenario, base: &Path, v: usize, seed: u64) -> Result<VectorRu
             build_sboms: s.build_sboms.clone(),
             launch_sboms: s.launch_sboms.clone(),
             launch_sboms_first: false,
+            store_tamper: 0,
         },
     };
     // detect once
